@@ -13,7 +13,7 @@ def CALL(fn, *args):
 
 
 def _dtype(g):
-    return g.choice([float, float, int])
+    return g.choice([float, float, float, int, int, bool])
 
 
 def dag(g, p, weighted=None, dtype=None):
